@@ -10,8 +10,14 @@ CHECKS = {
    technique="bounded symbolic execution of the real Go code (go/ssa -> SMT bit-vectors), z3 decides each assertion; counterexamples replayed natively",
    text="Symbolic execution of pcrel.SplitOffset/CombineOffset/MakeAbs/MakePCRel/GetTargetAddress/MakeLa64PCRel from the current tree with fully symbolic 32/64-bit operands; each clause of the property is an SMT query whose unsat answer covers the whole 2^32 / 2^64 x 2^64 input domain (the code is loop-free, so no unwinding bound applies). Right level: the property is pure integer arithmetic on machine words, exactly what a bit-vector solver decides completely.",
    note="Trusted: go/ssa lowering (x/tools v0.29.0), the gosym executor (validated per run by replaying solver models of every explored path natively and comparing observed values), z3 5.1.0. LoongArch CPU semantics of pcalau12i/addi.d are written in the harness from the manual. Range for LoongArch is the reachable part of +-2GiB (see DESIGN.md#C18)."),
+ "C19": dict(engine=E1, category="model_checking", design="DESIGN.md#C19",
+   technique="bounded symbolic execution of the real Go code (go/ssa -> SMT bit-vectors); z3 decides decoder-vs-grammar equivalence per path; counterexamples replayed natively",
+   text="Encoders: every uint32/uint64/int32/int64/33-bit value is symbolic; the loop in encodeUint64/encodeInt64 unwinds at most 10 times and every unwinding is explored, so the claim covers all values. Decoders: every byte string of length 0..max+1 (6 bytes for 32/33-bit, 11 for 64-bit) with all bytes symbolic, for LoadUint32/LoadInt32/LoadInt64 and the io.ByteReader variants incl. DecodeInt33AsInt64; accept/reject, value and byte count are compared with a reference decoder written from the spec grammar. Right level: byte-level codecs with rare boundary inputs (5th/10th byte) are exactly where a solver beats sampling.",
+   note="Trusted: the reference uN/sN decoder in the harness, go/ssa, the executor (validated per run by native replay of path models), z3 5.1.0. fmt.Errorf is an opaque non-nil error. Strings longer than max+1 bytes only add unread suffix bytes and are outside the bound."),
+ # ---CHECKS-END---
 }
 NA = {
+ # ---NA-END---
 }
 DEFAULT_NA = "check not built yet (build in progress; see DESIGN.md section 4/5)"
 
